@@ -71,32 +71,50 @@ struct Kind {
     call: &'static str,
     /// levels for the bounded variant
     levels: usize,
+    /// the expression that stands for the counter inside the body (the parameter is always `n`)
+    var: &'static str,
+    /// the top-level call, `{N}` = number of levels
+    top: &'static str,
+    /// the function is used as a predicate: it returns a boolean (`{STEP} >= 0`), the base case is `true`
+    boolean: bool,
 }
+
+const K0: Kind = Kind { name: "", defs: "", call: "", levels: 0, var: "n", top: "f({N})", boolean: false };
 
 fn kinds() -> Vec<Kind> {
     vec![
-        Kind { name: "self", defs: "f = n => {GUARD}{STEP}", call: "f({NEXT})", levels: 300 },
-        Kind { name: "mutual", defs: "f = n => {GUARD}{STEP}\ng = n => {GUARDG}{STEPG}", call: "g({NEXT})", levels: 300 },
-        Kind { name: "via-callback", defs: "f = n => {GUARD}{STEP}", call: "([{NEXT}] via f)[0]", levels: 300 },
-        Kind { name: "map-callback", defs: "f = n => {GUARD}{STEP}", call: "map([{NEXT}], f)[0]", levels: 150 },
-        Kind { name: "reduce-callback", defs: "f = n => {GUARD}{STEP}", call: "reduce([{NEXT}], (a, x) => f(x), 0)", levels: 150 },
-        Kind { name: "filter-callback", defs: "f = n => {GUARD}{STEP}", call: "(len(filter([{NEXT}], x => f(x) >= 0)) - 1)", levels: 150 },
-        Kind { name: "count_by-callback", defs: "f = n => {GUARD}{STEP}", call: "(len(keys(count_by([{NEXT}], x => to_string(f(x))))) - 1)", levels: 150 },
-        Kind { name: "group_by-callback", defs: "f = n => {GUARD}{STEP}", call: "(len(keys(group_by([{NEXT}], x => to_string(f(x))))) - 1)", levels: 150 },
-        Kind { name: "every-callback", defs: "f = n => {GUARD}{STEP}", call: "(if every([{NEXT}], x => f(x) >= 0) then 0 else 1)", levels: 150 },
-        Kind { name: "some-callback", defs: "f = n => {GUARD}{STEP}", call: "(if some([{NEXT}], x => f(x) >= 0) then 0 else 1)", levels: 150 },
-        Kind { name: "where-callback", defs: "f = n => {GUARD}{STEP}", call: "(len([{NEXT}] where (x => f(x) >= 0)) - 1)", levels: 150 },
+        Kind { name: "self", defs: "f = n => {GUARD}{STEP}", call: "f({NEXT})", levels: 300, ..K0 },
+        Kind { name: "mutual", defs: "f = n => {GUARD}{STEP}\ng = n => {GUARDG}{STEPG}", call: "g({NEXT})", levels: 300, ..K0 },
+        Kind { name: "via-callback", defs: "f = n => {GUARD}{STEP}", call: "([{NEXT}] via f)[0]", levels: 300, ..K0 },
+        Kind { name: "map-callback", defs: "f = n => {GUARD}{STEP}", call: "map([{NEXT}], f)[0]", levels: 150, ..K0 },
+        Kind { name: "reduce-callback", defs: "f = n => {GUARD}{STEP}", call: "reduce([{NEXT}], (a, x) => f(x), 0)", levels: 150, ..K0 },
+        Kind { name: "filter-callback", defs: "f = n => {GUARD}{STEP}", call: "(len(filter([{NEXT}], x => f(x) >= 0)) - 1)", levels: 150, ..K0 },
+        Kind { name: "count_by-callback", defs: "f = n => {GUARD}{STEP}", call: "(len(keys(count_by([{NEXT}], x => to_string(f(x))))) - 1)", levels: 150, ..K0 },
+        Kind { name: "group_by-callback", defs: "f = n => {GUARD}{STEP}", call: "(len(keys(group_by([{NEXT}], x => to_string(f(x))))) - 1)", levels: 150, ..K0 },
+        Kind { name: "every-callback", defs: "f = n => {GUARD}{STEP}", call: "(if every([{NEXT}], x => f(x) >= 0) then 0 else 1)", levels: 150, ..K0 },
+        Kind { name: "some-callback", defs: "f = n => {GUARD}{STEP}", call: "(if some([{NEXT}], x => f(x) >= 0) then 0 else 1)", levels: 150, ..K0 },
+        Kind { name: "where-callback", defs: "f = n => {GUARD}{STEP}", call: "(len([{NEXT}] where (x => f(x) >= 0)) - 1)", levels: 150, ..K0 },
         // recursion whose cycle contains no named function: the lambda lives in a record field, in a list,
         // or is passed inline, and reaches itself through a parameter
-        Kind { name: "anonymous-in-record", defs: "k = {go: (self, n) => {GUARD}{STEP}}\nf = n => k.go(k.go, n)", call: "self(self, {NEXT})", levels: 300 },
-        Kind { name: "anonymous-in-list", defs: "fs = [(self, n) => {GUARD}{STEP}]\nf = n => fs[0](fs[0], n)", call: "self(self, {NEXT})", levels: 300 },
-        Kind { name: "anonymous-inline-argument", defs: "f = n => (g => g(g, n))((self, n) => {GUARD}{STEP})", call: "self(self, {NEXT})", levels: 300 },
-        Kind { name: "anonymous-via-callback", defs: "fs = [(self, n) => {GUARD}{STEP}]\nf = n => fs[0](fs[0], n)", call: "([{NEXT}] via (m => self(self, m)))[0]", levels: 150 },
-        Kind { name: "do-block", defs: "f = n => {GUARD}do {\n  m = {NEXT}\n  r = {STEPM}\n  return r\n}", call: "f(m)", levels: 300 },
-        Kind { name: "record-wrapped", defs: "f = n => {GUARD}{STEP}", call: "{k: f({NEXT})}.k", levels: 300 },
-        Kind { name: "into", defs: "f = n => {GUARD}{STEP}", call: "(({NEXT}) into f)", levels: 300 },
-        Kind { name: "conditional-arms", defs: "f = n => {GUARD}{STEP}", call: "(if n == n then f({NEXT}) else f({NEXT}))", levels: 300 },
-        Kind { name: "closure-in-closure", defs: "mk = k => (n => {GUARD}{STEP})\nf = mk(1)", call: "mk(k)({NEXT})", levels: 300 },
+        Kind { name: "anonymous-in-record", defs: "k = {go: (self, n) => {GUARD}{STEP}}\nf = n => k.go(k.go, n)", call: "self(self, {NEXT})", levels: 300, ..K0 },
+        Kind { name: "anonymous-in-list", defs: "fs = [(self, n) => {GUARD}{STEP}]\nf = n => fs[0](fs[0], n)", call: "self(self, {NEXT})", levels: 300, ..K0 },
+        Kind { name: "anonymous-inline-argument", defs: "f = n => (g => g(g, n))((self, n) => {GUARD}{STEP})", call: "self(self, {NEXT})", levels: 300, ..K0 },
+        Kind { name: "anonymous-via-callback", defs: "fs = [(self, n) => {GUARD}{STEP}]\nf = n => fs[0](fs[0], n)", call: "([{NEXT}] via (m => self(self, m)))[0]", levels: 150, ..K0 },
+        Kind { name: "do-block", defs: "f = n => {GUARD}do {\n  m = {NEXT}\n  r = {STEPM}\n  return r\n}", call: "f(m)", levels: 300, ..K0 },
+        Kind { name: "record-wrapped", defs: "f = n => {GUARD}{STEP}", call: "{k: f({NEXT})}.k", levels: 300, ..K0 },
+        Kind { name: "into", defs: "f = n => {GUARD}{STEP}", call: "(({NEXT}) into f)", levels: 300, ..K0 },
+        Kind { name: "conditional-arms", defs: "f = n => {GUARD}{STEP}", call: "(if n == n then f({NEXT}) else f({NEXT}))", levels: 300, ..K0 },
+        // the remaining call sites of the evaluator, each as the *only* call in the cycle (a site that forgets
+        // to count is not covered up by a counted one next to it)
+        Kind { name: "via-function-list", defs: "f = n => {GUARD}{STEP}", call: "([{NEXT}] via [f])[0]", levels: 300, ..K0 },
+        Kind { name: "scalar-via", defs: "f = n => {GUARD}{STEP}", call: "(({NEXT}) via f)", levels: 300, ..K0 },
+        Kind { name: "list-into", defs: "f = n => {GUARD}{STEP}", call: "([{NEXT}] into f)", levels: 300, var: "n[0]", top: "f([{N}])", ..K0 },
+        Kind { name: "reduce-direct", defs: "f = (a, n) => {GUARD}{STEP}", call: "reduce([{NEXT}], f, 0)", levels: 150, top: "f(0, {N})", ..K0 },
+        Kind { name: "where-direct", defs: "f = n => {GUARD}({STEP}) >= 0", call: "(len([{NEXT}] where f) - 1)", levels: 150, boolean: true, ..K0 },
+        Kind { name: "filter-direct", defs: "f = n => {GUARD}({STEP}) >= 0", call: "(len(filter([{NEXT}], f)) - 1)", levels: 150, boolean: true, ..K0 },
+        Kind { name: "every-direct", defs: "f = n => {GUARD}({STEP}) >= 0", call: "(if every([{NEXT}], f) then 0 else 1)", levels: 150, boolean: true, ..K0 },
+        Kind { name: "some-direct", defs: "f = n => {GUARD}({STEP}) >= 0", call: "(if some([{NEXT}], f) then 0 else 1)", levels: 150, boolean: true, ..K0 },
+        Kind { name: "closure-in-closure", defs: "mk = k => (n => {GUARD}{STEP})\nf = mk(1)", call: "mk(k)({NEXT})", levels: 300, ..K0 },
     ]
 }
 
@@ -110,8 +128,10 @@ struct Prog {
 }
 
 fn build(k: &Kind, w: Wrap, d: usize, bounded: bool) -> Prog {
-    let next = if bounded { "n - 1" } else { "n + 1" };
-    let guard = if bounded { "if n <= 0 then 0 else " } else { "" };
+    let next = if bounded { format!("{} - 1", k.var) } else { format!("{} + 1", k.var) };
+    let next = next.as_str();
+    let guard = if !bounded { String::new() } else if k.boolean { format!("if {} <= 0 then true else ", k.var) } else { format!("if {} <= 0 then 0 else ", k.var) };
+    let guard = guard.as_str();
     let call = k.call.replace("{NEXT}", next);
     let step = wrap(w, d, &call);
     // do-block kind: the step refers to m
@@ -127,7 +147,7 @@ fn build(k: &Kind, w: Wrap, d: usize, bounded: bool) -> Prog {
         defs = defs.replace("{GUARDG}", guard).replace("{STEPG}", &step_g);
     }
     let levels = k.levels;
-    let source = format!("id = x => x\n{}\nlate = x => x\noutput r = f({})\n", defs, if bounded { levels.to_string() } else { "0".into() });
+    let source = format!("id = x => x\n{}\nlate = x => x\noutput r = {}\n", defs, k.top.replace("{N}", &if bounded { levels.to_string() } else { "0".into() }));
     // expected value of the bounded variant
     let per_level = match w {
         Wrap::Plus => d as f64,
@@ -138,6 +158,8 @@ fn build(k: &Kind, w: Wrap, d: usize, bounded: bool) -> Prog {
         Some(match k.name {
             // the callback's value is only tested, not accumulated
             "filter-callback" | "count_by-callback" | "group_by-callback" | "every-callback" | "some-callback" | "where-callback" => per_level,
+            // a predicate: the output is `true`, only the exit status is checked
+            _ if k.boolean => f64::NAN,
             _ => per_level * call_levels as f64,
         })
     } else {
@@ -290,7 +312,7 @@ pub fn run(ctx: &Ctx, replay: Option<&J>) -> i32 {
     finish(
         ctx,
         "exploration",
-        "recursion grammar: 20 recursion kinds (self, mutual, anonymous lambdas held in a record / a list / passed inline that reach themselves through a parameter, via / map / reduce / filter / where / every / some / count_by / group_by callbacks, do-block body, record-wrapped, into, conditional arms, closure-returning-closure) x 5 nesting constructs (binary +, unary -, list literal + index, call argument, nested do-blocks around a helper defined after the function) x per-call nesting depth 1..32 (quick: 1,2,4,8,16,32) x {unbounded, bounded to a few hundred calls}; every program run twice through the release CLI under an 8 MiB stack limit; distinct = distinct programs",
+        "recursion grammar: 28 recursion kinds (self, mutual, anonymous lambdas held in a record / a list / passed inline that reach themselves through a parameter, via / map / reduce / filter / where / every / some / count_by / group_by callbacks, do-block body, record-wrapped, into, conditional arms, closure-returning-closure; and each remaining call site of the evaluator as the only call of the cycle: element-wise via with a list of functions, scalar via, list into, reduce / where / filter / every / some with the function itself as callback) x 5 nesting constructs (binary +, unary -, list literal + index, call argument, nested do-blocks around a helper defined after the function) x per-call nesting depth 1..32 (quick: 1,2,4,8,16,32) x {unbounded, bounded to a few hundred calls}; every program run twice through the release CLI under an 8 MiB stack limit; every program whose lines are statements of their own also typed into the interactive mode through a pseudo-terminal (limit reported, session alive, status 0); distinct = distinct programs",
         true,
         None,
     )
